@@ -609,7 +609,9 @@ def mk(progs, tasks, timers=(), r=(), w=(), x=(), send=(), recv=(), t0=T0, budge
 def wants_canary(case):
     """one inline case in four is followed by the canary run (decided from the case alone, so that replays agree)"""
     if case.get("kind") == "epoll" or case.get("mode") == "threaded": return False
-    return case.get("label") == "hidden state" or (case.get("conv", 0) + len(case["progs"]) + 3 * len(case["tasks"]) + len(case["timers"])) % 4 == 0
+    if case.get("label") == "hidden state": return True
+    import zlib
+    return zlib.crc32(json.dumps([case["progs"], case["tasks"], case["timers"], case.get("conv", 0)]).encode()) % 5 == 0
 
 
 NUM0, NUM4, BLOCK, SLEEP4, SLEEP0, EXIT = ["num", 0], ["num", 4], ["block"], ["sleep", 4], ["sleep", 0], ["exit"]
